@@ -40,6 +40,13 @@ using GEBR_LAZY = xr::generic_epoch_based<>::with<xp::scan_frequency<0>, xp::sca
 using GEBR_THR = xr::generic_epoch_based<>::with<xp::scan_frequency<0>, xp::scan<xr::scan::all_threads>,
                                                  xp::abandon<xr::abandon::when_exceeds_threshold<1>>,
                                                  xp::region_extension<xr::region_extension::none>>;
+// less eager parameters: the counters that delay a scan / an epoch advance are part of the protocol too
+using EBR_F2 = xr::epoch_based<>::with<xp::scan_frequency<2>>;
+using DEBRA_F1 = xr::debra<>::with<xp::scan_frequency<1>>;
+using GEBR_F3 = xr::generic_epoch_based<>::with<xp::scan_frequency<3>, xp::scan<xr::scan::n_threads<1>>, xp::abandon<xr::abandon::when_exceeds_threshold<2>>,
+                                                xp::region_extension<xr::region_extension::eager>>;
+using HPs_B2 = xr::hazard_pointer<>::with<xp::allocation_strategy<xr::hp_allocation::static_strategy<3, 0, 2>>>;
+using HEd_B2 = xr::hazard_eras<>::with<xp::allocation_strategy<xr::he_allocation::dynamic_strategy<1, 0, 2>>>;
 using STAMP = xr::stamp_it;
 using LFRC = xr::lock_free_ref_count<>;
 using LFRC_TL = xr::lock_free_ref_count<>::with<xp::thread_local_free_list_size<2>>;
